@@ -435,6 +435,7 @@ func runC04(c *config) {
 	c04Bindings(c)
 	// attribute groups defined more than once, used in every position (c04attr.go)
 	c04RepeatedAttrGroups(c)
+	c04Comdats(c) // members of comdats, short and long form, names of every shape (c04comdat.go)
 	_ = o
 }
 
@@ -885,6 +886,7 @@ func runC12(c *config) {
 			inputs = append(inputs, sb.String())
 		}
 	}
+	c12MapOrderFaults(c) // invalid modules, one faulty entity among several per map-walked namespace (c12maps.go)
 	firstRound := map[int]string{}
 	for idx, src := range inputs {
 		firstRound[idx] = digestOf(src)
